@@ -44,7 +44,7 @@ NG == 2
 Pods == 1..NP
 Groups == 1..NG
 NodeN == "n1"
-Backoff == 5
+Backoff == 8          \* BackoffLimit of the scenarios' BindRequests (never reached: <= 6 attempts per pod)
 Portion == 500
 ExistIdx == 7
 ASync == 3          \* actor ids: reconcile of pod p = p (1, 2); 3 = Sync / SyncForNode; 4 = event handler
@@ -126,9 +126,11 @@ Unlock(m, g, a) == IF g \in Groups /\ m[g] = a THEN [m EXCEPT ![g] = 0] ELSE m
 Finish(l, m) == One(L0, m)
 
 ToPC(l, m) == IF l.mcond = "T" THEN Finish(l, m) ELSE One([l EXCEPT !.pc = "PC_patch"], m)
+\* UpdateStatus skips the patch only if neither the phase nor the failed-attempts count changes
+NewFa(l, err) == IF err = 1 /\ Backoff > l.brfa THEN l.brfa + 1 ELSE l.brfa
 ToStatus(l, m, err) ==
   LET newph == IF err = 1 THEN "Failed" ELSE "Succeeded"
-  IN IF newph = l.brph THEN ToPC(l, m) ELSE One([l EXCEPT !.pc = "ST_patch", !.err = err], m)
+  IN IF newph = l.brph /\ NewFa(l, err) = l.brfa THEN ToPC(l, m) ELSE One([l EXCEPT !.pc = "ST_patch", !.err = err], m)
 RBstart(l, m) == IF IsFrac(l.p) THEN One([l EXCEPT !.pc = "RB_delcap", !.err = 1], m) ELSE ToStatus(l, m, 1)
 PreBindStart(l, m) ==
   One([l EXCEPT !.pc = IF Kind(l.p) = "dra" THEN "DRA_get" ELSE IF IsFrac(l.p) THEN "CM_getcap" ELSE "ANN"], m)
@@ -248,7 +250,8 @@ SuccOf(a, St, l, m) ==
          Call(a, l, "delete", "ResPod", g, "", St, DelRes(St, g), RBstart(l, Unlock(m, g, a)), RBstart(l, Unlock(m, g, a)))
     [] l.pc = "RV_label" ->
          LET newlab == MergeLab(IsMulti(p), me.lab, g)
-             failL == [l EXCEPT !.pc = "SG_l1", !.ctxt = "rvf", !.mlab = MergeLab(IsMulti(p), l.mlab, g)]
+             \* a failed patch leaves the in-memory pod as it was (updatePodGPUGroup restores pod.Labels)
+             failL == [l EXCEPT !.pc = "SG_l1", !.ctxt = "rvf"]
              okL == [l EXCEPT !.mlab = newlab, !.mcond = me.cond, !.idxs = Append(l.idxs, l.cur)]
              m2 == Unlock(m, g, a)
          IN Call(a, l, "patch", "Pod", 0, "merge", St,
@@ -325,7 +328,7 @@ SuccOf(a, St, l, m) ==
                  One(next, m))
     \* ---- deferred UpdateStatus and updatePodCondition
     [] l.pc = "ST_patch" ->
-         LET newfa == IF l.err = 1 /\ Backoff > l.brfa THEN l.brfa + 1 ELSE l.brfa
+         LET newfa == NewFa(l, l.err)
              newph == IF l.err = 1 THEN "Failed" ELSE "Succeeded"
          IN Call(a, l, "patch", "BindRequestStatus", 0, "merge", St,
                  IF St.br[p].ex = 1 THEN [St EXCEPT !.br[p].ph = newph, !.br[p].fa = newfa] ELSE St,
